@@ -81,7 +81,8 @@ MODELLED = ('all from_dataset/from_sequence/extract_from_dataset/_from_dataset_*
             'seg.Segmentation._get_segment_pixel_array (values and ownership of every numpy step); 88 pinned __init__ '
             'bodies as effect terms (translate_c20.EXPECTED_CTORS)')
 STRATA = ['guard', 'valid', 'uid_uuid', 'uid_hd', 'uid_valid', 'uid_unique', 'conv', 'ctor',
-          'ctor_layout', 'ctor_multi', 'ctor_opt', 'lut', 'pyr_ids', 'pm_native', 'sop_init', 'seg_plane']
+          'ctor_layout', 'ctor_multi', 'ctor_opt', 'lut', 'pyr_ids', 'pm_native', 'sop_init', 'seg_plane',
+          'ctor_src', 'seg_measures', 'pr_area']
 NOT_EXECUTED = ['SpecimenDescription.from_dataset at run time (substitute attribute table has no specimen module tree)',
                 'JPEG 2000 / JPEG-LS transfer syntaxes in the ctor kinds',
                 'non-native byte order for seg / sc pixel arrays and integer pm arrays is REFUSED by the library '
@@ -102,6 +103,7 @@ RULE = ('guard/valid: strings over a boundary alphabet (upper, lower, digit, spa
         'described [1]/other x BINARY/FRACTIONAL x max_fractional_value 1,2,100,255 x dtype x 6 memory layouts. '
         'non-trivial = accepted value / changed class / written file')
 
+CTOR_KINDS = ('ctor', 'ctor_layout', 'ctor_multi', 'ctor_opt', 'ctor_src')
 VRS = ['CS', 'SH', 'LO', 'ST', 'LT']
 LIMIT = {'CS': 16, 'SH': 16, 'LO': 64, 'ST': 1024, 'LT': 10240}
 
@@ -443,19 +445,76 @@ def _palette_from(bits, first, r, g, b, via='luts', layout='C', uid=True):
     if via == 'segmented':      # every entry its own discrete segment of length 1
         arrs = [_relayout(np.array([v for x in col for v in (0, 1, x)], dt), layout) for col in (r, g, b)]
         luts = [hd.SegmentedPaletteColorLUT(first, a, c) for a, c in zip(arrs, ('red', 'green', 'blue'))]
+    elif via == 'segments':     # r, g, b ARE segmented data (discrete and linear segments)
+        arrs = [_relayout(np.array(col, dt), layout) for col in (r, g, b)]
+        luts = [hd.SegmentedPaletteColorLUT(first, a, c) for a, c in zip(arrs, ('red', 'green', 'blue'))]
     else:
         arrs = [_relayout(np.array(col, dt), layout) for col in (r, g, b)]
         luts = [hd.PaletteColorLUT(first, a, c) for a, c in zip(arrs, ('red', 'green', 'blue'))]
     return hd.PaletteColorLUTTransformation(luts[0], luts[1], luts[2], puid), arrs + luts
 
 
-def _seg(rng, seg_type=None, dtype=None, layout=None, palette=None):
+SOURCE_FORMS = ['series', 'series_nospacing', 'series_rev', 'series_shuffled', 'mf', 'mf_spacing', 'mf_single', 'mf_irregular',
+                'seg', 'seg_nospacing', 'tiled']
+
+
+def _sources(rng, form, n, rows, cols):
+    """Source / referenced images in one of the forms a caller can pass them: a series of single-frame
+    images (in spatial order, reversed, shuffled), ONE multi-frame image in the patient coordinate system
+    (Enhanced-CT-like: regularly spaced frames without / with SpacingBetweenSlices, a single frame,
+    irregularly spaced frames), a segmentation used as source (as read from a file, with / without the
+    spacing the library recorded in it), a tiled slide image.  Returns (images, planes, rows, columns)."""
+    import numpy as np
+    import highdicom as hd
+    import synth
+    if form in (None, 'series'):
+        return synth.ct_series(n, rows, cols), n, rows, cols
+    if form == 'series_nospacing':      # (the shipped CT fixture carries a SpacingBetweenSlices)
+        src = synth.ct_series(n, rows, cols)
+        for d in src:
+            if 'SpacingBetweenSlices' in d:
+                del d.SpacingBetweenSlices
+        return src, n, rows, cols
+    if form == 'series_rev':
+        return synth.ct_series(n, rows, cols)[::-1], n, rows, cols
+    if form == 'series_shuffled':
+        n = max(n, 3)
+        src = synth.ct_series(n, rows, cols)
+        src = [src[k] for k in ([1, 2, 0] + list(range(3, n)))]
+        return src, n, rows, cols
+    if form in ('mf', 'mf_spacing', 'mf_single', 'mf_irregular'):
+        n = 1 if form == 'mf_single' else max(n, 3 if form == 'mf_irregular' else 2)
+        step = rng.choice([1.25, 2.5, 5.0])
+        zs = [k * step for k in range(n)]
+        if form == 'mf_irregular':
+            zs[-1] += 3 * step
+        ds = synth.ct_multiframe(zs, rows, cols)
+        if form == 'mf_spacing':
+            ds.SharedFunctionalGroupsSequence[0].PixelMeasuresSequence[0].SpacingBetweenSlices = step
+        return [ds], n, rows, cols
+    if form in ('seg', 'seg_nospacing'):
+        n = max(n, 2)
+        seg = synth.make_seg(synth.ct_series(n, rows, cols), np.ones((n, rows, cols), np.uint8), 'BINARY', [1])
+        ds = _file_roundtrip(seg)
+        pm = ds.SharedFunctionalGroupsSequence[0].PixelMeasuresSequence[0]
+        if form == 'seg_nospacing' and 'SpacingBetweenSlices' in pm:
+            del pm.SpacingBetweenSlices
+        return [ds], n, rows, cols
+    if form == 'tiled':
+        th, tw = rng.choice([(4, 4), (2, 4)])
+        nr, nc = rng.choice([(1, 2), (2, 2), (1, 1)])
+        ds = synth.sm_tiled(nr * th, nc * tw, th, tw, samples=rng.choice([1, 3]))
+        return [ds], nr * nc, th, tw
+    raise ValueError(form)
+
+
+def _seg(rng, seg_type=None, dtype=None, layout=None, palette=None, source=None):
     import numpy as np
     import highdicom as hd
     import synth
     n = rng.randint(1, 3)
     rows, cols = rng.choice([(2, 3), (4, 4), (3, 5)])
-    src = synth.ct_series(n, rows, cols)
+    src, n, rows, cols = _sources(rng, source, n, rows, cols)
     seg_type = seg_type or rng.choice(['BINARY', 'FRACTIONAL', 'LABELMAP'])
     nseg = rng.randint(1, 3)
     if seg_type == 'FRACTIONAL':
@@ -481,7 +540,7 @@ def _seg(rng, seg_type=None, dtype=None, layout=None, palette=None):
                                    tracking_uid=rng.choice([None, hd.UID()]), tracking_id=_bstr(rng, 64))
              for k in range(nseg)]
     kw = {}
-    if rng.random() < 0.4:
+    if rng.random() < (0.4 if source in (None, 'series') else 0.25):
         kw['pixel_measures'] = hd.PixelMeasuresSequence(pixel_spacing=(1.0, 1.0), slice_thickness=1.0)
     if palette is not None and seg_type == 'LABELMAP':
         # a palette colour table with more entries than segments: 8/16 bit, odd/even sizes,
@@ -776,7 +835,7 @@ def _b_seg(seg_type):
         import highdicom as hd
         opt = opt or {}
         src, arr, st, descs, kw = _seg(rng, seg_type=seg_type, dtype=opt.get('dtype'), layout=opt.get('layout'),
-                                       palette=opt.get('palette'))
+                                       palette=opt.get('palette'), source=opt.get('source'))
         owned = kw.pop('_owned', [])
         if opt.get('ts') == 'rle' and st != 'BINARY':
             kw['transfer_syntax_uid'] = '1.2.840.10008.1.2.5'        # RLE Lossless: the encoder sees the frames
@@ -813,6 +872,9 @@ def _b_pm(rng, opt=None):
     rows, cols = rng.choice([(2, 3), (4, 4)])
     ndim = opt.get('ndim', 4)
     P = 1 if ndim == 2 else rng.randint(1, 3)
+    src = None
+    if opt.get('source'):
+        src, P, rows, cols = _sources(rng, opt['source'], P, rows, cols)
     M = opt.get('maps', 1) if ndim == 4 else 1
     dt = np.dtype(opt.get('dtype') or rng.choice(['u1', 'u2', 'f4', 'f8']))
     shape = {2: (rows, cols), 3: (P, rows, cols), 4: (P, rows, cols, M)}[ndim]
@@ -836,7 +898,8 @@ def _b_pm(rng, opt=None):
                                            value_range=vr, slope=2.0, intercept=-0.5)
     flat = [mapping() for _ in range(M)]
     maps = [[m] for m in flat] if ndim == 4 else flat
-    src = synth.ct_series(P, rows, cols)
+    if src is None:
+        src = synth.ct_series(P, rows, cols)
     kw, owned = {}, []
     if opt.get('palette') is not None and dt.kind == 'u':
         bits, n, via = opt['palette']
@@ -952,8 +1015,10 @@ def _b_pr(rng, opt=None):
     import highdicom as hd
     import synth
     opt = opt or {}
-    cts = synth.ct_series(rng.randint(1, 3), 4, 4)
     form = opt.get('pr') or rng.choice(['window', 'voilut', 'modlut', 'pseudocolor'])
+    cts, smallest = _pr_refs(rng, opt.get('refs'), 3 if form == 'color' else 1)
+    if opt.get('container') == 'tuple':
+        cts = tuple(cts)
     common_kw = dict(referenced_images=cts, series_number=1, instance_number=1,
                      manufacturer='m', manufacturer_model_name='mm', software_versions='1',
                      device_serial_number=_bstr(rng, 64), content_label=_bstr(rng, 16, cs=True),
@@ -981,11 +1046,63 @@ def _b_pr(rng, opt=None):
         kw['palette_color_lut_transformation'] = tf
         owned = [tf] + more
 
+    if form == 'color':
+        kw = {}
+
     def make():
         cls = hd.pr.PseudoColorSoftcopyPresentationState if form == 'pseudocolor' else \
-            hd.pr.GrayscaleSoftcopyPresentationState
+            hd.pr.ColorSoftcopyPresentationState if form == 'color' else hd.pr.GrayscaleSoftcopyPresentationState
         return cls(series_instance_uid=hd.UID(), sop_instance_uid=hd.UID(), **common_kw, **kw)
-    return [cts, voi] + owned, make
+
+    def post(obj, back):
+        listed = sorted(str(it.ReferencedSOPInstanceUID) for sr in back.ReferencedSeriesSequence
+                        for it in sr.ReferencedImageSequence)
+        if listed != sorted(str(d.SOPInstanceUID) for d in cts):
+            return 'the Referenced Series Sequence does not list exactly the referenced images passed in'
+        area = back.DisplayedAreaSelectionSequence[0]
+        if smallest is not None:
+            got = [str(it.ReferencedSOPInstanceUID) for it in area.get('ReferencedImageSequence', [])]
+            if got != [str(smallest.SOPInstanceUID)] or [int(v) for v in area.DisplayedAreaBottomRightHandCorner] != \
+                    [int(smallest.TotalPixelMatrixColumns), int(smallest.TotalPixelMatrixRows)]:
+                return 'the displayed area is not the total pixel matrix of the (first) smallest referenced level'
+        return None
+    return [cts, voi] + owned, make, post
+
+
+PR_REFS = ['series', 'series_rev', 'mf', 'tiled', 'pyramid_desc', 'pyramid_asc', 'pyramid_mixed', 'pyramid_ties']
+
+
+def _pr_refs(rng, refs, samples):
+    """Referenced images of a presentation state: a single-frame series (any order), one multi-frame
+    image, one tiled slide image, or several levels of a multi-resolution pyramid in the order the
+    caller happens to hold them (base level first, smallest first, mixed, levels of equal size).
+    Returns (images, the level whose area must be displayed or None)."""
+    import highdicom as hd
+    import synth
+    if refs in (None, 'series'):
+        return synth.ct_series(rng.randint(1, 3), 4, 4), None
+    if refs == 'series_rev':
+        return synth.ct_series(rng.randint(2, 3), 4, 4)[::-1], None
+    if refs == 'mf':
+        return [synth.ct_multiframe([0.0, 2.5, 5.0][:rng.randint(1, 3)], 4, 4)], None
+    series, pyr = hd.UID(), hd.UID()
+
+    def level(f):
+        ds = synth.sm_tiled(32 // f, 32 // f, 8, 8, samples=samples, spacing=(0.5 * f, 0.5 * f))
+        ds.SeriesInstanceUID, ds.PyramidUID = series, pyr
+        return ds
+    if refs == 'tiled':
+        lv = [level(rng.choice([1, 2]))]
+    elif refs == 'pyramid_ties':
+        lv = [level(f) for f in rng.choice([(1, 2, 2), (2, 1, 2), (4, 4), (1, 4, 2, 4)])]
+    else:
+        lv = [level(f) for f in ((1, 2, 4) if rng.random() < 0.6 else (1, 2))]
+        if refs == 'pyramid_asc':
+            lv = lv[::-1]
+        elif refs == 'pyramid_mixed':
+            lv = lv[1:] + lv[:1]
+    smallest = min(lv, key=lambda d: int(d.TotalPixelMatrixRows) * int(d.TotalPixelMatrixColumns))
+    return lv, smallest
 
 
 def _b_pyramid(rng, opt=None):
@@ -1428,6 +1545,8 @@ def run_lut(c):
     what = f"{cls}({c.get('via') or ''}{', in ' + c['holder'] if c.get('holder') else ''}, {bits} bit, " \
            f"{len(c['r'])} entries, layout {lay})"
     owned = before = None
+    if cls == 'SegmentedPaletteColorLUT':
+        return _run_segmented_lut(c, what)
     try:
         if cls in PLAIN_LUTS or cls == 'PaletteColorLUT':
             data = _relayout(np.array(c['r'], dt), lay)
@@ -1466,12 +1585,12 @@ def run_lut(c):
             elif c.get('holder') == 'pr':
                 target = hd.pr.PseudoColorSoftcopyPresentationState(
                     synth.ct_series(1, 4, 4), hd.UID(), 1, hd.UID(), 1, 'm', 'mm', '1', 'sn', tf, 'LABEL')
-            seg_ = 'Segmented' if c['via'] == 'segmented' else ''
+            seg_ = 'Segmented' if c['via'] in ('segmented', 'segments') else ''
             result = [[int(x) for x in target['RedPaletteColorLookupTableDescriptor'].value],
                       [list(bytes(target[f'{seg_}{col}PaletteColorLookupTableData'].value))
                        for col in ('Red', 'Green', 'Blue')]]
             got = None
-            if target is tf and c['via'] != 'segmented':
+            if target is tf and c['via'] not in ('segmented', 'segments'):
                 got = tf.red_lut.lut_data
     except REJECTIONS as ex:
         if _call_mistake(ex):
@@ -1494,6 +1613,49 @@ def run_lut(c):
     return result
 
 
+def _segments_count(data):
+    """Independent of the model and of the library: the number of entries WELL-FORMED segmented data
+    (opcode, length, value triples; DICOM PS3.3 C.7.9.2) expand to."""
+    return sum(int(data[i + 1]) for i in range(0, len(data), 3))
+
+
+def _run_segmented_lut(c, what):
+    """hd.SegmentedPaletteColorLUT on its own: [descriptor, stored bytes, number of expanded entries]."""
+    import numpy as np
+    import highdicom as hd
+    dt = np.uint8 if c['bits'] == 8 else np.uint16
+    data = _relayout(np.array(c['r'], dt), c.get('layout', 'C'))
+    before = [_snap(data)]
+    color = c.get('color', 'red')
+    try:
+        obj = hd.SegmentedPaletteColorLUT(c['first'], data, color)
+    except REJECTIONS + (IndexError,) as ex:
+        if _call_mistake(ex):
+            raise
+        if 'read-only' in str(ex):
+            return _viol(f'{what} writes to the array passed to it: {ex}')
+        return _unchanged(before, [data], what) or Err(type(ex).__name__)
+    v = _unchanged(before, [data], what)
+    if v:
+        return v
+    key = f'{color.title()}PaletteColorLookupTable'
+    n = int(len(obj.lut_data))
+    result = [[int(x) for x in obj[key + 'Descriptor'].value], list(bytes(obj['Segmented' + key + 'Data'].value)), n]
+    if not 1 <= n <= 65536:
+        return result       # no valid table (see claims: accepted by the current code, residue)
+    if obj.number_of_entries != n:
+        return _viol(f'{what}: number_of_entries is {obj.number_of_entries}, the segments expand to {n} entries')
+    viol, back = _check_object(what + f' expanding to {n} entries', obj, {})
+    if viol:
+        return _viol(viol)
+    again = hd.SegmentedPaletteColorLUT.extract_from_dataset(back.ContentSequence[0], color)
+    raw = np.frombuffer(again['Segmented' + key + 'Data'].value, '<u1' if c['bits'] == 8 else '<u2')
+    if again.number_of_entries != n or [int(x) for x in raw[:len(c['r'])]] != [int(x) for x in c['r']]:
+        return _viol(f'{what}: the table read back has {again.number_of_entries} entries / other segments than '
+                     f'the {n}-entry table that was built')
+    return result
+
+
 def _lut_expected(c):
     """Independent of the model: numpy little-endian image of the tables, padded to even length."""
     import numpy as np
@@ -1505,6 +1667,11 @@ def _lut_expected(c):
         raw = np.array(col, code).tobytes()
         return list(raw + (b'\0' if len(raw) % 2 else b''))
     n = len(c['r'])
+    if c['cls'] == 'SegmentedPaletteColorLUT':
+        n = _segments_count(c['r'])
+        return [[0 if n == 65536 else n, c['first'], c['bits']], enc(c['r']), n]
+    if c.get('via') == 'segments':
+        n = _segments_count(c['r'])
     desc = [0 if n == 65536 else n, c['first'], c['bits']]
     if c['cls'] in PLAIN_LUTS or c['cls'] == 'PaletteColorLUT':
         return [desc, enc(c['r'])]
@@ -1606,6 +1773,139 @@ def run_pm_native(c):
     if kwd not in pm:
         return Err('no ' + kwd)
     return list(bytes(pm[kwd].value))
+
+
+def _zs_regular(zs):
+    """Independent of the library: do the frame positions form a regular stack (a single frame counts,
+    the library then records a spacing of 1.0)?  The generator draws steps that are either equal or
+    differ by more than 50 %."""
+    d = [b - a for a, b in zip(zs, zs[1:])]
+    return all(abs(x - d[0]) < 1e-9 and abs(x) > 1e-9 for x in d)
+
+
+def _measures_setup(c):
+    """Sources and arguments of a Segmentation for one configuration of the seg_measures kind."""
+    import numpy as np
+    import highdicom as hd
+    import synth
+    zs, rows, cols = c['zs'], c['rows'], c['cols']
+    n = len(zs)
+    spacing_given = c['has_spacing']
+    if c['source'] == 'series':
+        ids = (synth.uid(), synth.uid(), synth.uid())
+        src = [synth.ct_frame((0.0, 0.0, z), rows, cols, series_uid=ids[0], study_uid=ids[1], for_uid=ids[2],
+                              instance_number=k + 1) for k, z in enumerate(zs)]
+        if not c['user']:      # (the shipped CT fixture carries a SpacingBetweenSlices of its own)
+            for d in src:
+                if spacing_given:
+                    d.SpacingBetweenSlices = 7.5
+                elif 'SpacingBetweenSlices' in d:
+                    del d.SpacingBetweenSlices
+    elif c['source'] in ('mf', 'seg'):
+        ds = synth.ct_multiframe(zs, rows, cols)
+        if c['source'] == 'seg':
+            seg = synth.make_seg([ds], np.ones((n, rows, cols), np.uint8), 'BINARY', [1])
+            ds = _file_roundtrip(seg)
+            pm = ds.SharedFunctionalGroupsSequence[0].PixelMeasuresSequence[0]
+            if 'SpacingBetweenSlices' in pm:
+                del pm.SpacingBetweenSlices
+        if spacing_given and not c['user']:
+            ds.SharedFunctionalGroupsSequence[0].PixelMeasuresSequence[0].SpacingBetweenSlices = 7.5
+        src = [ds]
+    else:       # tiled slide image: one plane of n tiles
+        ds = synth.sm_tiled(rows, cols * n, rows, cols, samples=1)
+        if spacing_given and not c['user']:
+            ds.SharedFunctionalGroupsSequence[0].PixelMeasuresSequence[0].SpacingBetweenSlices = 7.5
+        src = [ds]
+    kw = {}
+    if c['user']:
+        kw['pixel_measures'] = hd.PixelMeasuresSequence(
+            pixel_spacing=(0.5, 0.5) if c['source'] == 'tiled' else (1.0, 1.0), slice_thickness=1.0,
+            spacing_between_slices=7.5 if spacing_given else None)
+    arr = np.zeros((n, rows, cols), np.uint8)
+    arr[:, 0, 0] = 1
+    return src, arr, kw
+
+
+def run_seg_measures(c):
+    """Segmentation.__init__, the pixel measures it records: [was an object of the caller (source
+    image(s), pixel_measures argument) changed, does the new object record a SpacingBetweenSlices]."""
+    import highdicom as hd
+    import synth
+    src, arr, kw = _measures_setup(c)
+    owned = [src] + ([kw['pixel_measures']] if kw else [])
+    before = [_snap(a) for a in owned]
+    seg = hd.seg.Segmentation(src, arr, 'BINARY', [synth.seg_description(1)], hd.UID(), 1, hd.UID(), 1,
+                              'm', 'mm', '1', 'sn', omit_empty_frames=False, **kw)
+    what = (f"Segmentation({'multi-frame ' if c['source'] in ('mf', 'seg') else ''}{c['source']} source, "
+            f"{len(c['zs'])} frame(s) at z = {c['zs']}, pixel_measures {'passed' if c['user'] else 'not passed'}, "
+            f"SpacingBetweenSlices {'present' if c['has_spacing'] else 'absent'})")
+    changed = False
+    for i, (x, y) in enumerate(zip(before, [_snap(a) for a in owned])):
+        d = _first_diff(x, y, 'source_images' if i == 0 else 'pixel_measures')
+        if d:
+            return _viol(f'{what} constructor modified its input: {d}')
+    pm = seg.SharedFunctionalGroupsSequence[0].PixelMeasuresSequence[0]
+    rec = pm.get('SpacingBetweenSlices')
+    # independent expectation of the VALUE that is recorded
+    zs = c['zs']
+    want = 7.5 if c['has_spacing'] else None
+    if want is None and c['source'] != 'tiled' and _zs_regular(zs):
+        want = abs(zs[1] - zs[0]) if len(zs) > 1 else 1.0
+    if (rec is None) != (want is None) or (rec is not None and abs(float(rec) - want) > 1e-6):
+        return _viol(f'{what} records SpacingBetweenSlices = {rec}, expected {want}')
+    viol, _ = _check_object(what, seg, {})
+    if viol:
+        return _viol(viol)
+    return [changed, rec is not None]
+
+
+def _area_refs(c):
+    import synth
+    refs = []
+    if c['tiled']:
+        base = synth.sm_tiled(8, 8, 8, 8, samples=1)
+        for (r, cc) in c['sizes']:
+            d = _copy.deepcopy(base)
+            d.SOPInstanceUID = synth.uid()
+            d.TotalPixelMatrixRows, d.TotalPixelMatrixColumns = r, cc       # a level of the pyramid (metadata)
+            refs.append(d)
+    else:
+        for k, (r, cc) in enumerate(c['sizes']):
+            d = synth.ct_frame((0.0, 0.0, float(k)), 2, 2)
+            d.Rows, d.Columns = r, cc
+            refs.append(d)
+    return refs
+
+
+def run_pr_area(c):
+    """pr.content._add_displayed_area_attributes on the caller's list of referenced images:
+    [bottom right hand corner, position of the image it refers to, the caller's list afterwards]."""
+    from pydicom.dataset import Dataset
+    from highdicom.pr.content import _add_displayed_area_attributes
+    refs = _area_refs(c)
+    orig = list(refs)
+    if c.get('container') == 'tuple':
+        refs = tuple(refs)
+    before = [_snap(d) for d in orig]
+    ds = Dataset()
+    try:
+        _add_displayed_area_attributes(ds, refs)
+    except IndexError:
+        return Err('IndexError')
+    except AttributeError as ex:
+        return _viol(f'_add_displayed_area_attributes needs a mutable list of referenced images '
+                     f'(a {type(refs).__name__} is a valid Sequence[Dataset]): {ex}')
+    v = _unchanged(before, orig, '_add_displayed_area_attributes')
+    if v:
+        return v
+    item = ds.DisplayedAreaSelectionSequence[0]
+    uids = [str(d.SOPInstanceUID) for d in orig]
+    sel = 0
+    if 'ReferencedImageSequence' in item:
+        sel = uids.index(str(item.ReferencedImageSequence[0].ReferencedSOPInstanceUID))
+    return [[int(v) for v in item.DisplayedAreaBottomRightHandCorner], sel,
+            [next(i for i, o in enumerate(orig) if o is r) for r in refs] if len(refs) == len(orig) else [-1]]
 
 
 TS_CODES = {0: [None], 1: ['1.2.840.10008.1.2'], 2: ['1.2.840.10008.1.2.1'], 3: ['1.2.840.10008.1.2.2'],
@@ -1781,11 +2081,84 @@ def gen_cases(rng, tier):
     cases += _gen_pm_native_cases(rng, n)
     cases += _gen_sop_init_cases(rng, n)
     cases += _gen_seg_plane_cases(rng, n)
+    cases += _gen_measures_cases(rng, n)
+    cases += _gen_area_cases(rng, n)
+    cases += _gen_src_cases(rng, n)
+    return cases
+
+
+def _gen_src_cases(rng, n):
+    """Every image-taking constructor x the FORM of the source / referenced images (kind ctor_src)."""
+    cases = []
+    i = 0
+    for t in ('seg_binary', 'seg_fractional', 'seg_labelmap'):
+        forms = SOURCE_FORMS if (n > 1 or t == 'seg_binary') else \
+            ['mf', 'seg_nospacing'] + rng.sample([f for f in SOURCE_FORMS if f not in ('mf', 'seg_nospacing')], 3)
+        for form in forms:
+            i += 1
+            cases.append(_ctor(rng, t, {'source': form}, i))
+    for form in ('series_rev', 'series_shuffled', 'mf', 'mf_spacing', 'mf_single', 'mf_irregular', 'seg_nospacing'):
+        i += 1
+        cases.append(_ctor(rng, 'pm', {'source': form, 'ndim': rng.choice([3, 4])}, i))
+    for refs in PR_REFS:
+        tiled = refs.startswith(('tiled', 'pyramid'))
+        forms = ['window', 'pseudocolor', 'color'] if tiled else ['window', rng.choice(['voilut', 'modlut', 'pseudocolor'])]
+        for form in forms:
+            if form == 'color' and n == 1 and refs in ('tiled', 'pyramid_asc') and rng.random() < 0.5:
+                continue
+            i += 1
+            cases.append(_ctor(rng, 'pr', {'refs': refs, 'pr': form}, i))
+    cases.append(_ctor(rng, 'pr', {'refs': 'pyramid_asc', 'pr': 'window', 'container': 'tuple'}, i))
+    cases.append(_ctor(rng, 'pr', {'refs': 'series', 'pr': 'window', 'container': 'tuple'}, i))
+    return cases
+
+
+def _gen_measures_cases(rng, n):
+    """Segmentation.__init__ x where the pixel measures come from x whether a spacing is there / can be
+    derived (kind seg_measures, model-compared)."""
+    cases = []
+    for source in ('series', 'mf', 'seg', 'tiled'):
+        for user in (False, True):
+            for has_spacing in (False, True):
+                stacks = ['single', 'regular', 'irregular'] if source != 'tiled' else ['regular']
+                if source == 'seg':
+                    stacks = ['regular', rng.choice(['single', 'irregular'])]
+                for stack in stacks:
+                    for _ in range(n):
+                        step = rng.choice([0.5, 1.25, 2.5, 3.0])
+                        k = 1 if stack == 'single' else rng.randint(2, 4) if stack == 'regular' else rng.randint(3, 4)
+                        zs = [j * step for j in range(k)]
+                        if stack == 'irregular':       # one gap of 2 or 3 steps (first, middle or last)
+                            j0 = rng.randrange(1, k)
+                            gap = step * rng.choice([1.0, 2.0])
+                            zs = [z + (gap if j >= j0 else 0.0) for j, z in enumerate(zs)]
+                        rows, cols = rng.choice([(2, 3), (4, 4), (3, 2)])
+                        cases.append({'kind': 'seg_measures', 'source': source, 'user': user,
+                                      'has_spacing': has_spacing, 'zs': zs, 'rows': rows, 'cols': cols})
+    return cases
+
+
+def _gen_area_cases(rng, n):
+    """_add_displayed_area_attributes x tiled or not x number of referenced images x ORDER of their
+    sizes (ascending, descending, mixed, ties, rows x columns products that tie) (kind pr_area)."""
+    cases = []
+    pool = [(8, 8), (16, 16), (32, 32), (64, 64), (16, 8), (8, 16), (4, 32), (32, 4), (24, 10), (100, 3)]
+    fixed = [[(32, 32)], [(8, 8), (16, 16), (32, 32)], [(32, 32), (16, 16), (8, 8)], [(16, 16), (8, 8), (32, 32)],
+             [(32, 32), (8, 8)], [(8, 8), (32, 32)], [(16, 8), (8, 16)], [(8, 16), (16, 8), (4, 32)],
+             [(32, 32), (8, 8), (16, 16), (8, 8)], [(16, 16), (16, 16)], []]
+    for tiled in (True, False):
+        for sizes in fixed:
+            cases.append({'kind': 'pr_area', 'tiled': tiled, 'sizes': [list(x) for x in sizes], 'container': 'list'})
+        for _ in range(8 * n):
+            sizes = [rng.choice(pool) for _ in range(rng.choice([1, 2, 2, 3, 4, 5]))]
+            cases.append({'kind': 'pr_area', 'tiled': tiled, 'sizes': [list(x) for x in sizes],
+                          'container': 'tuple' if rng.random() < 0.15 else 'list'})
     return cases
 
 
 def _ctor(rng, target, opt, i=0):
-    return {'kind': 'ctor_layout' if 'layout' in opt else 'ctor_multi' if target == 'pyramid' else 'ctor_opt',
+    return {'kind': 'ctor_src' if ('source' in opt or 'refs' in opt) else
+            'ctor_layout' if 'layout' in opt else 'ctor_multi' if target == 'pyramid' else 'ctor_opt',
             'target': target, 'seed': rng.getrandbits(32), 'strict': 'construct' if i % 2 else 'write', 'opt': opt}
 
 
@@ -1886,6 +2259,15 @@ def _gen_lut_cases(rng, n):
     for bits in (8, 16):
         cases.append({'kind': 'lut', 'cls': 'PaletteColorLUTTransformation', 'via': 'luts', 'bits': bits, 'first': 0,
                       'r': col(bits, 3), 'g': col(bits, 4), 'b': col(bits, 3), 'holder': None, 'layout': 'C'})
+    cases += _gen_segmented_cases(rng, n, lays)
+    # tables with 2^16 entries (descriptor 0: VR US cannot hold 65536) through every class; oracle only
+    for cls in ('PaletteColorLUT', 'LUT', rng.choice(PLAIN_LUTS[1:])):
+        for k in ((65536, 65535) if cls != 'LUT' or n > 1 else (65536,)):
+            cases.append({'kind': 'lut', 'cls': cls, 'bits': 16, 'first': rng.choice([0, 1]), 'r': col(16, k),
+                          'layout': rng.choice(['C', 'readonly'])})
+    for via, holder in (('luts', None), ('combined', 'pr')):
+        cases.append({'kind': 'lut', 'cls': 'PaletteColorLUTTransformation', 'via': via, 'bits': 16, 'first': 0,
+                      'r': col(16, 65536), 'g': col(16, 65536), 'b': col(16, 65536), 'holder': holder, 'layout': 'C'})
     # 16-bit tables in non-native byte order
     for cls in ('PaletteColorLUT', 'LUT'):
         cases.append({'kind': 'lut', 'cls': cls, 'bits': 16, 'first': 0, 'r': col(16, 4), 'layout': 'swapped'})
@@ -1893,6 +2275,68 @@ def _gen_lut_cases(rng, n):
         cases.append({'kind': 'lut', 'cls': 'PaletteColorLUTTransformation', 'via': via, 'bits': 16, 'first': 0,
                       'r': col(16, 4), 'g': col(16, 4), 'b': col(16, 4), 'holder': None,
                       'layout': rng.choice(['swapped', 'swapped_readonly'])})
+    return cases
+
+
+def _segments(rng, bits, total, ramps=True):
+    """Well-formed segmented data (first segment discrete, linear segments of length >= 2, ascending
+    ramps) that expand to exactly `total` entries."""
+    top = 2 ** bits - 1
+    maxlen = top                                   # a length is one value of the table's dtype
+    data, left, v = [], total, rng.randrange(0, top // 2 + 1)
+    k = min(left, rng.choice([1, 1, 2, 3]))
+    data += [0, k, v]
+    left -= k
+    while left > 0:
+        k = min(left, maxlen, rng.choice([left, left, 2, 3, 5, rng.randint(1, max(1, left))]))
+        if ramps and k >= 2 and rng.random() < 0.7:
+            v = rng.randint(v, top)
+            data += [1, k, v]
+        else:
+            v = rng.randrange(0, top + 1)
+            data += [0, k, v]
+        left -= k
+    return data
+
+
+def _gen_segmented_cases(rng, n, lays):
+    """SegmentedPaletteColorLUT with real segments: discrete and linear, expanded sizes around every
+    boundary (1, 2, 255, 256, 257, 65535, 65536 = the value VR US cannot hold), alone (model-compared),
+    inside a transformation and inside a presentation state; plus a malformed stream."""
+    cases = []
+    for bits in (8, 16):
+        totals = [1, 2, 3, 255, 256, 257, 1000] if bits == 8 else [1, 2, 256, 4096, 65534, 65535, 65536, 65536]
+        for total in totals:
+            for rep in range(2 if total >= 65535 else 1):
+                cases.append({'kind': 'lut', 'cls': 'SegmentedPaletteColorLUT', 'bits': bits,
+                              'first': rng.choice([0, 0, 1, 2 ** bits - 1]), 'r': _segments(rng, bits, total),
+                              'color': rng.choice(['red', 'green', 'blue']), 'wellformed': True,
+                              'layout': rng.choice(lays[bits])})
+        for total in ([3, 256] if bits == 8 else [4, 65535, 65536, 65536]):
+            holder = rng.choice([None, 'pr']) if bits == 16 else None
+            cases.append({'kind': 'lut', 'cls': 'PaletteColorLUTTransformation', 'via': 'segments', 'bits': bits,
+                          'first': 0, 'r': _segments(rng, bits, total), 'g': _segments(rng, bits, total),
+                          'b': _segments(rng, bits, total), 'holder': holder if total != 65536 or rng.random() < 0.5 else 'pr',
+                          'layout': 'C'})
+    # the seed of every regression of the 2^16 rule: one discrete entry and one ramp over the full 16-bit range
+    cases.append({'kind': 'lut', 'cls': 'SegmentedPaletteColorLUT', 'bits': 16, 'first': 0,
+                  'r': [0, 1, 0, 1, 65535, 65535], 'color': 'red', 'wellformed': True, 'layout': 'C'})
+    # segmented DATA of exactly 2^bits values (the other use of the 2^16 rule in the constructor)
+    cases.append({'kind': 'lut', 'cls': 'SegmentedPaletteColorLUT', 'bits': 8, 'first': 0,
+                  'r': [0, 1, 7] * 85 + [0], 'color': 'red', 'wellformed': False, 'layout': 'C'})
+    cases.append({'kind': 'lut', 'cls': 'SegmentedPaletteColorLUT', 'bits': 8, 'first': 0,
+                  'r': ([0, 2, 7] * 86)[:255], 'color': 'blue', 'wellformed': True, 'layout': 'C'})
+    # malformed stream / not a table of 1 .. 2^16 entries: model-compared, oracle silent
+    bad = [[1, 5, 100], [0, 1, 7, 1, 1, 100], [0, 1, 7, 1, 0, 100], [0, 1], [0, 1, 5, 1, 3], [0, 1, 5, 2, 3, 4],
+           [0, 1, 5, 3, 3, 4], [0, 0, 5], [0, 0, 5, 1, 4, 9], [0], [], [0, 2, 1, 0], [7, 1, 1]]
+    for d in bad:
+        cases.append({'kind': 'lut', 'cls': 'SegmentedPaletteColorLUT', 'bits': rng.choice([8, 16]), 'first': 0,
+                      'r': d, 'color': 'green', 'wellformed': False, 'layout': 'C'})
+    cases.append({'kind': 'lut', 'cls': 'SegmentedPaletteColorLUT', 'bits': 16, 'first': 0,
+                  'r': [0, 65535, 5, 0, 65535, 5], 'color': 'red', 'wellformed': False, 'layout': 'C'})
+    for first in (-1, 256, 65536):
+        cases.append({'kind': 'lut', 'cls': 'SegmentedPaletteColorLUT', 'bits': 8 if first == 256 else 16,
+                      'first': first, 'r': [0, 2, 5], 'color': 'red', 'wellformed': False, 'layout': 'C'})
     return cases
 
 
@@ -2115,8 +2559,12 @@ def run_impl(c):
         return us
     if k == 'conv':
         return run_converter(c)
-    if k in ('ctor', 'ctor_layout', 'ctor_multi', 'ctor_opt'):
+    if k in CTOR_KINDS:
         return run_constructor(c)
+    if k == 'seg_measures':
+        return run_seg_measures(c)
+    if k == 'pr_area':
+        return run_pr_area(c)
     if k == 'lut':
         return run_lut(c)
     if k == 'pyr_ids':
@@ -2143,8 +2591,12 @@ def coq_term(c):
     if k == 'uid_valid':
         return f"(run_uid_valid {zl(c['s'])})"
     if k == 'lut':
-        if c.get('via') == 'segmented' or (c.get('via') == 'combined' and 'swapped' in c.get('layout', '')):
-            return None        # segmented tables, and the refusal of a non-native combined array: oracle only
+        if c['cls'] == 'SegmentedPaletteColorLUT':
+            return f"(run_segmented_lut {c['bits']} {zlit(c['first'])} {zl(c['r'])})"
+        if c.get('via') in ('segmented', 'segments') or len(c['r']) > 600 or \
+                (c.get('via') == 'combined' and 'swapped' in c.get('layout', '')):
+            return None        # segmented tables inside a transformation, tables of 2^16 entries (size of the
+            #                    term) and the refusal of a non-native combined array: oracle only
         if c['cls'] == 'PaletteColorLUT':
             return f"(run_palette_lut {c['bits']} {zlit(c['first'])} {zl(c['r'])})"
         if c['cls'] in PLAIN_LUTS:
@@ -2184,6 +2636,13 @@ def coq_term(c):
                     common.optz(None if c['sex'] == 0 else c['sex'] - 1), ostr(lo[0]), ostr(lo[1]), ostr(lo[2]),
                     ostr(lo[3]), ostr(lo[4]), ostr(lo[5]), ostr(lo[6]),
                     common.optz(None if c['qual'] == 0 else c['qual'] - 1)))
+    if k == 'seg_measures':
+        bb = lambda x: 'true' if x else 'false'
+        return (f"(run_seg_measures {bb(c['user'])} {bb(c['source'] in ('mf', 'seg'))} {bb(c['source'] != 'tiled')} "
+                f"{bb(c['has_spacing'])} {bb(_zs_regular(c['zs']))})")
+    if k == 'pr_area':
+        sizes = '[' + '; '.join(f'({r}, {cc})' for r, cc in c['sizes']) + ']'
+        return f"(run_displayed_area {'true' if c['tiled'] else 'false'} {sizes})"
     if k == 'seg_plane':
         b = lambda x: 'true' if x else 'false'
         return (f"(run_seg_plane {b(c['fl'])} {b(c['nd3'])} {b(c['described'] == [1])} "
@@ -2232,14 +2691,16 @@ def oracle(c, out):
             return 'two calls returned the same identifier'
         bad = [u for u in out if not _uid_ok(u)]
         return f'invalid identifier {bad[0]}' if bad else None
-    if k in ('conv', 'ctor', 'ctor_layout', 'ctor_multi', 'ctor_opt'):
+    if k in ('conv',) + CTOR_KINDS:
         return out.get('violation') if isinstance(out, dict) else f'unexpected output {out!r}'
     if isinstance(out, Err) and out.kind.startswith('VIOLATION'):
         return out.kind[len('VIOLATION '):]
     if k == 'lut':
         if isinstance(out, Err):
             return None          # refusal; which inputs are refused is the model's side of the comparison
-        stored = [out[1]] if c['cls'] in PLAIN_LUTS or c['cls'] == 'PaletteColorLUT' else out[1]
+        if c['cls'] == 'SegmentedPaletteColorLUT' and not c.get('wellformed'):
+            return None          # malformed / not a table of 1..2^16 entries: the model's side of the comparison
+        stored = [out[1]] if c['cls'] in PLAIN_LUTS + ('PaletteColorLUT', 'SegmentedPaletteColorLUT') else out[1]
         for col, st in zip(('red', 'green', 'blue'), stored):
             if len(st) % 2:
                 return (f"{c['cls']} holds an odd-length ({len(st)} bytes) {col if len(stored) > 1 else ''} table: "
@@ -2284,6 +2745,30 @@ def oracle(c, out):
         if out[7] < 1 or out[8] < 1:
             return 'series / instance number below 1'
         return None
+    if k == 'seg_measures':
+        if isinstance(out, Err):
+            return f'valid arguments refused: {out.kind}'
+        patient = c['source'] != 'tiled'
+        want = bool(c['has_spacing'] or (patient and _zs_regular(c['zs'])))
+        if out[0]:
+            return 'the constructor changed an object of the caller'
+        if out[1] != want:
+            return (f"SpacingBetweenSlices {'recorded' if out[1] else 'not recorded'} in the segmentation; "
+                    f"expected {'a' if want else 'no'} spacing for frames at z = {c['zs']}")
+        return None
+    if k == 'pr_area':
+        if isinstance(out, Err):
+            return None if not c['sizes'] else f'valid referenced images refused: {out.kind}'
+        corner, sel, order = out
+        if order != list(range(len(c['sizes']))):
+            return (f"_add_displayed_area_attributes reordered the caller's list of referenced images: positions "
+                    f"{order} of the list that was passed (sizes {c['sizes']})")
+        areas = [r * cc for r, cc in c['sizes']]
+        want = areas.index(min(areas)) if c['tiled'] else 0
+        if sel != want or corner != [c['sizes'][want][1], c['sizes'][want][0]]:
+            return (f'displayed area {corner} of image #{sel}; expected the '
+                    f"{'first smallest level' if c['tiled'] else 'first image'} #{want} of sizes {c['sizes']}")
+        return None
     if k == 'seg_plane':
         if isinstance(out, Err):
             return str(out)
@@ -2311,9 +2796,9 @@ def nontrivial(c, out):
     k = c['kind']
     if k in ('guard', 'valid', 'uid_valid'):
         return bool(out) or len(c['s']) > 1
-    if k in ('conv', 'ctor', 'ctor_layout', 'ctor_multi', 'ctor_opt'):
+    if k in ('conv',) + CTOR_KINDS:
         return isinstance(out, dict) and out.get('ran', False)
-    if k in ('lut', 'pyr_ids', 'pm_native', 'sop_init'):
+    if k in ('lut', 'pyr_ids', 'pm_native', 'sop_init', 'seg_measures', 'pr_area'):
         return not isinstance(out, Err)
     if k == 'seg_plane':
         return any(v for px in c['plane'] for v in px)
@@ -2327,7 +2812,8 @@ def shrink(c):
     if 'n' in c and int(c['n']) > 0:
         yield dict(c, n=str(int(c['n']) // 10))
         yield dict(c, n='0')
-    if c.get('kind') == 'lut' and len(c['r']) > 1:
+    if c.get('kind') == 'lut' and len(c['r']) > 1 and c.get('cls') != 'SegmentedPaletteColorLUT' and \
+            c.get('via') != 'segments':
         for k in (len(c['r']) - 2, len(c['r']) // 2):
             if k >= 1:
                 yield dict(c, **{x: c[x][:k] for x in ('r', 'g', 'b') if x in c})
